@@ -212,6 +212,9 @@ func (c *LocalReusableWorkflowCache) readCache(key string) (*ReusableWorkflowMet
 }
 
 func (c *LocalReusableWorkflowCache) writeCache(key string, val *ReusableWorkflowMetadata) {
+	if c.proj == nil {
+		return // Null cache (no project). It has no map to write to
+	}
 	c.mu.Lock()
 	c.cache[key] = val
 	c.mu.Unlock()
